@@ -77,6 +77,8 @@ static int g_ncp;
 static int g_idle_rounds;
 static uint64_t g_idle_epoch;
 static void (*g_hang_cb)(const char *);
+static int g_trace;
+#define TRACE(...) do { if (g_trace) fprintf(stderr, __VA_ARGS__); } while (0)
 
 uint64_t ds_steps, ds_switches, ds_spin_sleeps, ds_clock_jumps;
 int ds_fine = 1;
@@ -368,6 +370,7 @@ uint64_t ds_now(void)
 }
 void ds_advance(uint64_t ns)
 {
+    TRACE("[%lu] advance %lu\n", (unsigned long)ds_steps, (unsigned long)ns);
     g_now_ns += ns;
     g_epoch++;
 }
@@ -437,6 +440,7 @@ void ds_begin(const ds_cfg *cfg)
             g_cp_done[k] = 0;
         }
     }
+    g_trace = getenv("DS_TRACE") != NULL;
     self_id = 0;
     T[0].state = ST_RUN;
     T[0].prio = 1000 + (int64_t)(rnd() % 1000);
@@ -758,8 +762,13 @@ long __wrap_syscall(long no, ...)
             return -1;
         }
         uint64_t dl = rel ? g_now_ns + ts_ns(rel) : 0;
+        TRACE("[%lu] t%d futex_wait %p val=%d rel=%ld.%09ld now=%lu dl=%lu\n", (unsigned long)ds_steps, me,
+              (void *)uaddr, val, rel ? (long)rel->tv_sec : -1, rel ? rel->tv_nsec : 0,
+              (unsigned long)g_now_ns, (unsigned long)dl);
         wait_on(uaddr, rel != NULL, dl);
         int w = T[me].woken;
+        TRACE("[%lu] t%d futex_wait returns woken=%d now=%lu\n", (unsigned long)ds_steps, me, w,
+              (unsigned long)g_now_ns);
         T[me].woken = 0;
         if (!w) {
             errno = ETIMEDOUT;
@@ -769,6 +778,8 @@ long __wrap_syscall(long no, ...)
     } else if (op == FUTEX_WAKE) {
         vsp(uaddr, VK_ARMW);
         int n = wake_obj(uaddr, (int)a3);
+        TRACE("[%lu] t%d futex_wake %p n=%d woke=%d\n", (unsigned long)ds_steps, me, (void *)uaddr,
+              (int)a3, n);
         vsp(uaddr, VK_POST);
         return n;
     }
